@@ -108,6 +108,12 @@ CHECKS.update({
    text="Every #[repr(C)] structure of the binding against the C structure it mirrors (size, alignment, field count/order, per-field offset+width via 'for all byte images' z3 queries, machine type class) and every extern \"C\" declaration against the C definition (arity, parameter and return machine types), for f64 and for the f32 feature (A_SIZE_REAL=4).",
    note="x86-64 SysV only; integer signedness is not compared; the z3 queries are trivial by design - the work is extracting both layouts from the real compilers each run. Needs rustc (present offline in the image)."),
 })
+CHECKS.update({
+ "C11": dict(engine="llsym", cat="model_checking", design="4/C11",
+   technique="symbolic execution of src/math.c IR in the fallback configuration (every A_HAVE_* off) and the libm-bound one, a_real as z3 Real, libm calls as fresh reals with contract/monotonicity/parity facts; nlsat decides quadrant tables, exact-branch identities, norm and reduction formulas",
+   text="Partial by design: decides the atan2 quadrant/axis table over all sign combinations, the exact-branch identities of asinh/acosh/atanh/log1p/expm1 (the argument handed to log equals the defining argument; domain and sign handling), r >= 0 and r^2 = sum x^2 for norm2/norm3/norm/norm_, the composition of the coordinate conversions, and sum/sum1/sum2/mean/dot/copy/swap/fill/zero/push/roll (+strided) = their definitions for lengths 0..4 (6) in both configurations. NOT decided: accuracy in ulps of any transcendental evaluation, asymptotic branches, overflow-freedom of the norms.",
+   note=E2NOTE + REALNOTE + " No installed solver decides transcendental accuracy; that clause of C11 is outside this check."),
+})
 NOT_YET = {}
 
 def main():
